@@ -79,6 +79,9 @@ def run(ctx):
     env = {} if q else {"C09FULL": "1"}
     n = vlib.check_trace(ctx, "Trace_Escape.tla", "Trace.cfg", tp, sig_of,
                          group_key=lambda e: e.get("e") in ("s", "fe") or (e.get("e") == "iv" and e.get("lo") == 0),
+                         # `r` is a result of the code under test only in "s" events (length of the body
+                         # written by write_json_body_jq); in iv/ivend/fe it is a harness-side count
+                         selftest_filter=lambda e: e.get("e") == "s",
                          timeout=3400, env=env)
     evs = vlib.read_ndjson(tp)
     if not ctx.violations:
@@ -115,4 +118,16 @@ def run(ctx):
     ]
 
 
-# MUTANTS: see the block at the end of this file (filled in after mutation testing)
+# MUTANTS (scratch worktree /tmp/wt-c09, `VERIF_REPO=/tmp/wt-c09 ./check C09`, quick tier, seed 20260921):
+#  N1 escape.rs is_jq_escaped_control: drop `|| c == '\u{7f}'` (DEL raw in jq)        -> VIOLATION exit 1
+#     (iv jq lo=93: the literal interval 93..0xD7FF swallows 127; MustEscape(jq,127) violated)
+#  N2 escape.rs write_u_escape: `0xDC00 + (adjusted & 0x3FF)` -> `& 0x3FE`              -> VIOLATION exit 1
+#     (iv jqAscii lo=65537 kind pair: edge body \ud800\udc00 reads back as 65536)
+#  N3 simd/escape.rs json_avx2_mask: `set1_epi8(0x1F)` -> `0x1E` (AVX2 loop misses 0x1F)   -> VIOLATION exit 1
+#     (s event: yq body with a raw 0x1F inside the first 32-byte chunk is not a string body)
+#  N4 escape.rs write_json_body_yq: `i = escape_pos` -> `i = escape_pos + 1`              -> VIOLATION exit 1
+#     (iv yq lo=0: body of "\0" is empty, kind other)
+#  N5 escape.rs write_short_u_escape: high nibble `b >> 4` -> `b >> 5`                    -> VIOLATION exit 1
+#     (iv jq lo=16..31: \u0000..\u000f instead of \u0010..\u001f)
+#  N6 simd/escape.rs avx2 kernel: 16-byte tail `offset + 16 <= data_len` -> `<`           -> survives (exit 0):
+#     equivalent mutant, an exact 16-byte tail is then found by the scalar remainder with the same answer.
